@@ -94,6 +94,7 @@ type session struct {
 	report   func(prop, sig, what string, detail map[string]interface{})
 	lastOps  []string // op lines of this session (for replays)
 	faithful bool     // every injected record is one the real kernel would have produced here
+	lastRet  string   // return class of the last Add
 }
 
 func errClass(err error) string {
@@ -379,6 +380,7 @@ func (s *session) opAdd(r *rec, arg string, ops uint32, noFollow bool) {
 		}
 	}
 	ret := safeCall(func() error { return s.w.AddWith(arg, opts...) })
+	s.lastRet = ret
 	k := "err:" + ret
 	if ret == "nil" {
 		// what did inotify_add_watch answer? a mark that was not there before, or else the
